@@ -106,10 +106,10 @@ theorem new_forecast_rebinds (s : State α) (stored : List (List α)) (edges : L
     region alone; a catalog that has a space-magnitude region keeps it -/
 theorem test_binds_region (m : Mode) :
     (bindRegion m .full = .full) ∧
-    (bindRegion .L .none = .full ∧ bindRegion .L .spatialOnly = .full ∧
-     bindRegion .CL .none = .full ∧ bindRegion .CL .spatialOnly = .full) ∧
+    (bindRegion .L .none = .full ∧ bindRegion .L .spatialOnly = .full ∧ bindRegion .L .spatialOther = .full ∧
+     bindRegion .CL .none = .full ∧ bindRegion .CL .spatialOnly = .full ∧ bindRegion .CL .spatialOther = .full) ∧
     (∀ r, bindRegion .S r = r ∧ bindRegion .M r = r) := by
-  refine ⟨by cases m <;> rfl, ⟨rfl, rfl, rfl, rfl⟩, ?_⟩
+  refine ⟨by cases m <;> rfl, ⟨rfl, rfl, rfl, rfl, rfl, rfl⟩, ?_⟩
   intro r; cases r <;> exact ⟨rfl, rfl⟩
 
 /-- what `runOps` collects for a test step is `observe` in the state reached so far -/
@@ -122,5 +122,11 @@ example (s : State ℝ) : observe (([.test .L 0 0, .otherEval, .test .CL 1 0] : 
   evaluations_irrelevant _ (by intro op hop; simp at hop; rcases hop with rfl | rfl | rfl <;> simp [IsEval]) s 2 .L 0 0
 
 example : bindRegion .CL .none = .full := rfl
+
+-- round 5: the edges a space-magnitude region bins on are the edges the user supplied. Witness that "cleaning" them changes
+-- counts: with the supplied edges 4, 4.125, 4.25 an event of magnitude 4.122 lies in bin 0; with the edges rounded to two
+-- decimals (4, 4.12, 4.25) it lies in bin 1 (kernel-evaluated on C03's exact `magBin`)
+example : Gridding.magBin [4, 33 / 8, 17 / 4] (4122 / 1000) = some 0 ∧
+    Gridding.magBin [4, 412 / 100, 425 / 100] (4122 / 1000) = some 1 := by decide +kernel
 
 end PoissonSession
